@@ -97,13 +97,18 @@ def verify_worker(args):
         timeout = 20 if tier == 'quick' else 120
         seen = {}
         verdicts = []
+        refuted_names = set()
         for ob in rep.obligations:
             sig = (ob.name, tuple(f.get_id() for f in ob.pc), ob.formula.get_id())
             if sig in seen:
                 continue
             seen[sig] = True
+            if ob.name in refuted_names:
+                continue        # already refuted on another path: one witness is enough
             v = discharge(ob, axioms, timeout_s=timeout, seed=seed, both=(tier == 'thorough'))
             verdicts.append(v)
+            if v.status == 'refuted':
+                refuted_names.add(ob.name)
         merged = merge_verdicts(verdicts)
         out['verdicts'] = [v.as_dict() for v in merged]
         out['n_queries'] = len(verdicts)
